@@ -116,8 +116,13 @@ def evaluate(contract, args: dict, allow_pre_fail=False):
             contract.body(**args)
             obs["outcome"] = "return"
         except Exception as e:  # pylint: disable=broad-except
+            from pyvc.engine import ghost_gap
+
             obs["outcome"] = f"raise {type(e).__name__}: {e}"
-            obs["failed_clauses"].append(f"no-exception:{type(e).__name__}")
+            if ghost_gap(e):
+                obs["ghost_gap"] = ghost_gap(e)  # a gap of the stand-in collaborators, not a failure of the code
+            else:
+                obs["failed_clauses"].append(f"no-exception:{type(e).__name__}")
         obs["failed_clauses"].extend(engine_native.CLAIM_FAILURES)
         return obs
     fn, cls = raw_callable(contract.fn)
